@@ -16,6 +16,7 @@ from typing import Any, Callable, Dict, List
 from mc import env
 
 MAX_WITNESSES = 3
+MAX_PRINTED = 12
 UNIT_ALARM_S = int(os.environ.get("MC_UNIT_ALARM", "600"))
 
 
@@ -96,7 +97,8 @@ def _run_unit(args):
 def pmap(func: Callable, units: List[Any], seed: int = 0, nproc: int = None, chunksize: int = 1) -> Acc:
     """Run func over all units on a fork pool; the seed only rotates the order of the units."""
     units = list(units)
-    random.Random(seed).shuffle(units)
+    if seed is not None:
+        random.Random(seed).shuffle(units)
     total = Acc()
     nproc = nproc or env.NPROC
     if nproc <= 1 or len(units) <= 1:
@@ -193,9 +195,13 @@ def finish(prop: str, tier: str, seed: int, level: str, acc: Acc, coverage: Dict
         json.dump(ev, f, indent=1)
     for k in sorted(known_keys):
         print(f"KNOWN-FINDING: property={prop} key={k} count={acc.viol[k]['count']} :: {known[k]}")
-    for k in sorted(new_keys):
+    for n_printed, k in enumerate(sorted(new_keys)):
         v = acc.viol[k]
         path = write_replay(prop, k, {"detail": v["detail"], "count": v["count"], "witnesses": v["witnesses"]})
+        if n_printed == MAX_PRINTED:
+            print(f"  ... {len(new_keys) - MAX_PRINTED} more violation keys (replays written, listed in the evidence file)")
+        if n_printed >= MAX_PRINTED:
+            continue
         print(f"VIOLATION property={prop} replay={path}")
         print(f"  key={k} count={v['count']} detail={v['detail']}")
         print(f"  witness={json.dumps(jsonable(v['witnesses'][0]))[:600]}")
